@@ -65,8 +65,8 @@ CLAIMED = {
              'text/html for multipart/alternative (C11_body). Tied to the working tree by differential execution of the real '
              'message_get_attachments/message_get_body (ASan harness) against model and specification on generated MIME trees.',
         note='Trusted: Lean kernel, Spec/Mime.lean, the correspondence generators; entity/header reading is shared between model and spec (its '
-             'correctness is C08/C10); how attachment conditions/blocks quantify over parts (expr.c) is not yet in the model - a change there '
-             '(seeded change C11-m2) is not detected by this check yet.',
+             'correctness is C08/C10); how attachment conditions/blocks quantify over parts is transcribed in Model/Eval.lean and compared exactly with the real '
+             'evaluator, with an independent oracle for error propagation; no theorem about it yet.',
         technique='Lean 4 proof of model = line-based MIME specification + differential execution model/implementation'),
     'C12': dict(
         text='Machine-checked: for EVERY match list, macro table and template of the documented syntax the Lean transcription of '
